@@ -16,7 +16,11 @@ Local Open Scope N_scope.
 Module HE := SSV.Validation.HonestEnvelope.
 Module VP := SSV.Validation.ProofsPanic.
 
-Definition item_of (m : smsg) : N * N := match m with SM k _ _ => (c_type k, hd 0 (c_signers k)) end.
+(* the item of a protocol message: (type, signer) of a single-signer message, (decided, first signer) of an aggregate *)
+Definition item_of (m : smsg) : N * N :=
+  match m with
+  | SM k _ _ => if (1 <? length (c_signers k))%nat then (HR.tDecided, hd 0 (c_signers k)) else (c_type k, hd 0 (c_signers k))
+  end.
 
 Lemma NoDup_map_inj_on : forall (A B : Type) (f : A -> B) (l : list A),
   (forall x y, In x l -> In y l -> f x = f y -> x = y) -> NoDup l -> NoDup (map f l).
@@ -28,13 +32,19 @@ Proof.
   - apply IH. intros x y Hx Hy. apply Hinj; right; assumption.
 Qed.
 
-Lemma item_of_gate : forall fdlen m h rho v nrc rcfull nrcj npj t s,
-  gate_msg fdlen true m = HR.hmsg h rho v fdlen nrc rcfull nrcj npj t s -> item_of m = (t, s).
+Lemma item_of_gate : forall fdlen m h rho v nrc rcfull nrcj npj dsig t s,
+  HR.is_dec t = false ->
+  gate_msg fdlen true m = HR.hmsg h rho v fdlen nrc rcfull nrcj npj dsig t s -> item_of m = (t, s).
 Proof.
-  intros fdlen [k rcj pj] h rho v nrc rcfull nrcj npj t s Eg.
+  intros fdlen [k rcj pj] h rho v nrc rcfull nrcj npj dsig t s Ed Eg.
   pose proof (f_equal V.c_type Eg) as E1. pose proof (f_equal V.c_signers Eg) as E2.
-  cbn in E1, E2. unfold item_of. rewrite E1, E2. reflexivity.
+  cbn in E1, E2. unfold HR.mtype in E1. unfold HR.msigners in E2. rewrite Ed in E1, E2.
+  unfold item_of. rewrite E1, E2. reflexivity.
 Qed.
+
+Lemma single_items_not_decided : forall sh ld dsig t s,
+  HR.honest_item sh ld dsig (t, s) -> t <> HR.tDecided -> HR.is_dec t = false.
+Proof. intros sh ld dsig t s _ Ht. unfold HR.is_dec. apply N.eqb_neq. exact Ht. Qed.
 
 (* ---- any bundle of one round's messages ---------------------------------------------------------------------- *)
 
@@ -62,9 +72,15 @@ Definition envelope_of (m : smsg) : V.envelope :=
      V.e_pk_deser_ok := true; V.e_vid := vid; V.e_msg_type := VC.ssvConsensusMsgType;
      V.e_body := V.BConsensus (gate_msg fdlen true m) |}.
 
-Variables (B : list smsg) (h rho ldr v nrc : N) (rcfull : bool) (nrcj npj : N).
+Variables (B : list smsg) (h rho ldr v nrc : N) (rcfull : bool) (nrcj npj : N) (dsig : N -> list N).
 Hypothesis Hitem : forall m, In m B ->
-  exists t s, gate_msg fdlen true m = HR.hmsg h rho v fdlen nrc rcfull nrcj npj t s /\ HR.honest_item sh ldr (t, s).
+  gate_msg fdlen true m = HR.hmsg h rho v fdlen nrc rcfull nrcj npj dsig (fst (item_of m)) (snd (item_of m)) /\
+  HR.honest_item sh ldr dsig (item_of m).
+(* at most one aggregated decided message in the bundle (the operators' aggregates of a fault-free round are one and
+   the same message) *)
+Hypothesis Hdec1 : forall m1 m2, In m1 B -> In m2 B ->
+  HR.is_dec (fst (item_of m1)) = true -> HR.is_dec (fst (item_of m2)) = true -> m1 = m2.
+Hypothesis Hmaxpos : (1 <= V.max_decided (Z.of_nat (length (V.s_committee sh))))%Z.
 Hypothesis Hinj : forall m1 m2, In m1 B -> In m2 B -> item_of m1 = item_of m2 -> m1 = m2.
 Hypothesis Hleader : V.round_robin (V.s_committee sh) h rho = V.LeaderIs ldr.
 Hypothesis Hrr : V.rr_defined sh h rho = true.
@@ -79,20 +95,39 @@ Lemma bundle_is_accepted : forall (l : list ((Z * Z) * smsg)) (vs : V.vstate),
 Proof.
   intros l vs Hfresh Hndl Hall.
   set (l' := map (fun x => (fst x, item_of (snd x))) l).
-  assert (Hit : forall m, In m B ->
-            gate_msg fdlen true m = HR.hmsg h rho v fdlen nrc rcfull nrcj npj (fst (item_of m)) (snd (item_of m)) /\
-            HR.honest_item sh ldr (item_of m)).
-  { intros m Hm. destruct (Hitem m Hm) as (t & s & Eg & Hi).
-    pose proof (item_of_gate _ _ _ _ _ _ _ _ _ _ _ Eg) as Et. rewrite Et. cbn [fst snd]. split; assumption. }
+  pose proof Hitem as Hit.
+  assert (Hlim : HR.decided_within_limit sh [] (map snd l')).
+  { unfold HR.decided_within_limit, l'. rewrite map_map. cbn [snd]. change (HR.ndec []) with 0%Z.
+    assert (G : forall l0 : list ((Z * Z) * smsg), NoDup (map snd l0) -> (forall x, In x l0 -> In (snd x) B) ->
+              (HR.ndec (map (fun x => item_of (snd x)) l0) <= 1)%Z).
+    { induction l0 as [|[now m] tl IH]; intros Hn0 Hin0; [unfold HR.ndec; cbn; lia|].
+      cbn [map snd] in *. inversion Hn0 as [|? ? Hni0 Hn1]; subst. rewrite HR.ndec_cons.
+      assert (Htl : (HR.ndec (map (fun x => item_of (snd x)) tl) <= 1)%Z).
+      { apply IH; [exact Hn1|]. intros x Hx. apply Hin0. right. exact Hx. }
+      destruct (HR.is_dec (fst (item_of m))) eqn:Ed; [|lia].
+      assert (Hz : HR.ndec (map (fun x => item_of (snd x)) tl) = 0%Z).
+      { clear IH Htl. induction tl as [|[now2 m2] tl2 IH2]; [reflexivity|]. cbn [map snd] in *. rewrite HR.ndec_cons.
+        destruct (HR.is_dec (fst (item_of m2))) eqn:Ed2.
+        - exfalso. apply Hni0. left.
+          apply (Hdec1 m2 m); [apply (Hin0 (now2, m2)); right; left; reflexivity|apply (Hin0 (now, m)); left; reflexivity|exact Ed2|exact Ed].
+        - rewrite IH2; [reflexivity| | | |].
+          + inversion Hn0 as [|? ? A1 A2]; subst. inversion A2 as [|? ? A3 A4]; subst.
+            constructor; [|exact A4]. intros Hin. apply A1. right. exact Hin.
+          + intros x [E|Hx]; [apply Hin0; left; exact E|apply Hin0; right; right; exact Hx].
+          + intros Hin. apply Hni0. right. exact Hin.
+          + inversion Hn1; assumption. }
+      lia. }
+    specialize (G l Hndl). rewrite Forall_forall in Hall.
+    specialize (G (fun x Hx => proj2 (Hall x Hx))). lia. }
   assert (Hmap : map (fun x => (fst x, envelope_of (snd x))) l =
-                 map (fun x => (fst x, HE.henv vc vid role h rho v fdlen nrc rcfull nrcj npj p2p rawlen dlen pkprefix
+                 map (fun x => (fst x, HE.henv vc vid role h rho v fdlen nrc rcfull nrcj npj dsig p2p rawlen dlen pkprefix
                                         (fst (snd x)) (snd (snd x)))) l').
   { unfold l'. rewrite map_map. apply map_ext_in. intros [now m] Hx. cbn [fst snd].
     rewrite Forall_forall in Hall. destruct (Hall _ Hx) as [_ Hm]. cbn [snd] in Hm.
     destruct (Hit m Hm) as [Eg _]. unfold envelope_of, HE.henv. rewrite Eg. reflexivity. }
   rewrite Hmap.
-  apply (HE.honest_round_accepted_at_the_gate vc sh vid role h rho ldr v fdlen nrc rcfull nrcj npj p2p rawlen dlen pkprefix
-           W Hshare Hliq Hmeta Hatt Hd0 Hd1 Hr0 Hr1 Hrole Hvalid Hleader Hrr Hfd Hrho1 Hrho2 l' vs Hfresh).
+  apply (HE.honest_round_accepted_at_the_gate vc sh vid role h rho ldr v fdlen nrc rcfull nrcj npj dsig p2p rawlen dlen pkprefix
+           W Hshare Hliq Hmeta Hatt Hd0 Hd1 Hr0 Hr1 Hrole Hvalid Hleader Hrr Hfd Hrho1 Hrho2 l' vs Hfresh); [| |exact Hlim].
   - unfold l'. rewrite map_map. cbn [snd].
     rewrite <- (map_map snd item_of). apply NoDup_map_inj_on; [|exact Hndl].
     intros x y Hx Hy. rewrite Forall_forall in Hall.
@@ -223,6 +258,34 @@ Proof.
   intros rho ldr L E. rewrite Hcomm, E in L. unfold V.round_robin in L. cbn in L. discriminate.
 Qed.
 
+Lemma max_decided_pos : forall rho ldr, V.round_robin (V.s_committee sh) h rho = V.LeaderIs ldr ->
+  (1 <= V.max_decided (Z.of_nat (length (V.s_committee sh))))%Z.
+Proof.
+  intros rho ldr L. pose proof (committee_not_empty rho ldr L) as Hne. rewrite Hcomm.
+  destruct (committee qc) as [|a tl]; [congruence|]. unfold V.max_decided. cbn [length].
+  assert (0 <= Z.quot (Z.of_nat (S (length tl)) - 1) 3)%Z by (apply Z.quot_pos; lia). nia.
+Qed.
+
+(* bundles of single-signer messages *)
+Lemma singles : forall (B : list smsg) rho ldr v nrc rcfull nrcj npj dsig,
+  (forall m, In m B -> exists t s,
+     gate_msg fdlen true m = HR.hmsg h rho v fdlen nrc rcfull nrcj npj dsig t s /\
+     HR.honest_item sh ldr dsig (t, s) /\ HR.is_dec t = false) ->
+  (forall m, In m B ->
+     gate_msg fdlen true m = HR.hmsg h rho v fdlen nrc rcfull nrcj npj dsig (fst (item_of m)) (snd (item_of m)) /\
+     HR.honest_item sh ldr dsig (item_of m)) /\
+  (forall m1 m2, In m1 B -> In m2 B ->
+     HR.is_dec (fst (item_of m1)) = true -> HR.is_dec (fst (item_of m2)) = true -> m1 = m2).
+Proof.
+  intros B rho ldr v nrc rcfull nrcj npj dsig H. split.
+  - intros m Hm. destruct (H m Hm) as (t & s & Eg & Hi & Ed).
+    rewrite (item_of_gate _ _ _ _ _ _ _ _ _ _ _ _ Ed Eg). cbn [fst snd]. split; assumption.
+  - intros m1 m2 H1 _ E1 _. destruct (H m1 H1) as (t & s & Eg & Hi & Ed).
+    rewrite (item_of_gate _ _ _ _ _ _ _ _ _ _ _ _ Ed Eg) in E1. cbn [fst] in E1. congruence.
+Qed.
+
+Let nodsig : N -> list N := fun _ => [].
+
 (* 2. a correct peer accepts every broadcast of the fault-free first round *)
 Theorem fault_free_round_is_accepted : forall ld,
   proposer qc h FIRST_ROUND = Some ld ->
@@ -236,10 +299,12 @@ Proof.
   assert (Hrr : V.rr_defined sh h VC.firstRound = true).
   { apply rr_defined_in_range; try (unfold VC.firstRound; lia). rewrite Hcomm.
     exact (committee_not_empty _ _ Hleader). }
+  destruct (singles (all_broadcasts qc h ld) VC.firstRound ld (value_name ld) 0 false 0 0 nodsig) as [S1 S2].
+  { intros m Hm. unfold all_broadcasts in Hm. apply in_flat_map in Hm. destruct Hm as (i & Hi & Hm).
+    exact (round_broadcasts_are_honest_items qc sh h ld fdlen Hcomm Hz nodsig i m Hi Hm). }
   apply (bundle_is_accepted vc sh vid role fdlen p2p rawlen dlen pkprefix W Hshare Hliq Hmeta Hatt Hd0 Hd1 Hr0 Hr1
-           Hrole Hvalid Hfd (all_broadcasts qc h ld) h VC.firstRound ld (value_name ld) 0 false 0 0).
-  - intros m Hm. unfold all_broadcasts in Hm. apply in_flat_map in Hm. destruct Hm as (i & Hi & Hm).
-    exact (round_broadcasts_are_honest_items qc sh h ld fdlen Hcomm Hz i m Hi Hm).
+           Hrole Hvalid Hfd (all_broadcasts qc h ld) h VC.firstRound ld (value_name ld) 0 false 0 0 nodsig
+           S1 S2 (max_decided_pos _ _ Hleader)).
   - apply item_of_inj.
   - exact Hleader.
   - exact Hrr.
@@ -260,10 +325,12 @@ Proof.
   intros ld2 live Hlive Hld. pose proof (leader2_is qc sh h ld2 Hcomm Hld h64) as Hleader.
   assert (Hrr : V.rr_defined sh h 2 = true).
   { apply rr_defined_in_range; try lia. rewrite Hcomm. exact (committee_not_empty _ _ Hleader). }
+  destruct (singles (all_broadcasts2 qc h ld2 live) 2 ld2 (value_name ld2) (nrc2 qc live) false 0 0 nodsig) as [S1 S2].
+  { intros m Hm. unfold all_broadcasts2 in Hm. apply in_flat_map in Hm. destruct Hm as (i & Hi & Hm).
+    exact (round2_broadcasts_are_honest_items qc sh h ld2 fdlen live Hcomm Hz Hlive Hld nodsig i m Hi Hm). }
   apply (bundle_is_accepted vc sh vid role fdlen p2p rawlen dlen pkprefix W Hshare Hliq Hmeta Hatt Hd0 Hd1 Hr0 Hr1
-           Hrole Hvalid Hfd (all_broadcasts2 qc h ld2 live) h 2 ld2 (value_name ld2) (nrc2 qc live) false 0 0).
-  - intros m Hm. unfold all_broadcasts2 in Hm. apply in_flat_map in Hm. destruct Hm as (i & Hi & Hm).
-    exact (round2_broadcasts_are_honest_items qc sh h ld2 fdlen live Hcomm Hz Hlive Hld i m Hi Hm).
+           Hrole Hvalid Hfd (all_broadcasts2 qc h ld2 live) h 2 ld2 (value_name ld2) (nrc2 qc live) false 0 0 nodsig
+           S1 S2 (max_decided_pos _ _ Hleader)).
   - apply item_of_inj2.
   - exact Hleader.
   - exact Hrr.
@@ -284,16 +351,72 @@ Proof.
   intros ld1 ld2 live Hlive Hld. pose proof (leader2_is qc sh h ld2 Hcomm Hld h64) as Hleader.
   assert (Hrr : V.rr_defined sh h 2 = true).
   { apply rr_defined_in_range; try lia. rewrite Hcomm. exact (committee_not_empty _ _ Hleader). }
+  destruct (singles (all_broadcasts2p qc h ld1 ld2 live) 2 ld2 (value_name ld1) (nrc2 qc live) true
+              (nlive live) (nlive live) nodsig) as [S1 S2].
+  { intros m Hm. unfold all_broadcasts2p in Hm. apply in_flat_map in Hm. destruct Hm as (i & Hi & Hm).
+    exact (round2p_broadcasts_are_honest_items qc sh h ld1 ld2 fdlen live Hcomm Hz Hlive nodsig i m Hi Hm). }
   apply (bundle_is_accepted vc sh vid role fdlen p2p rawlen dlen pkprefix W Hshare Hliq Hmeta Hatt Hd0 Hd1 Hr0 Hr1
            Hrole Hvalid Hfd (all_broadcasts2p qc h ld1 ld2 live) h 2 ld2 (value_name ld1) (nrc2 qc live) true
-           (nlive live) (nlive live)).
-  - intros m Hm. unfold all_broadcasts2p in Hm. apply in_flat_map in Hm. destruct Hm as (i & Hi & Hm).
-    exact (round2p_broadcasts_are_honest_items qc sh h ld1 ld2 fdlen live Hcomm Hz Hlive i m Hi Hm).
+           (nlive live) (nlive live) nodsig S1 S2 (max_decided_pos _ _ Hleader)).
   - apply item_of_inj2p.
   - exact Hleader.
   - exact Hrr.
   - unfold VC.firstRound. lia.
   - lia.
+Qed.
+
+(* 5. the fault-free first round together with the decided message the operators' controllers broadcast when they
+      decide (the aggregate of the first quorum of commits - one and the same message at every operator) *)
+Definition all_broadcasts_and_decided (c : cfg) (hh ld : N) : list smsg := all_broadcasts c hh ld ++ [decided_msg c hh ld].
+
+Theorem fault_free_round_with_decided_is_accepted : forall ld,
+  NoDup (committee qc) -> V.s_quorum sh = quorum qc -> 2 <= quorum qc -> quorum qc <= N.of_nat (length (committee qc)) ->
+  proposer qc h FIRST_ROUND = Some ld ->
+  forall (l : list ((Z * Z) * smsg)) (vs : V.vstate),
+  HR.before_round h VC.firstRound (V.get_cs (vid, role) vs) ->
+  NoDup (map snd l) ->
+  Forall (fun x => HE.in_slot vc h (fst x) /\ In (snd x) (all_broadcasts_and_decided qc h ld)) l ->
+  Forall (eq V.Accept) (snd (V.run vc vs (map (fun x => (fst x, env (snd x))) l))).
+Proof.
+  intros ld Hnd Hquo Hq2 Hqn Hld. pose proof (leader_is qc sh h ld Hcomm Hld h64) as Hleader.
+  assert (Hrr : V.rr_defined sh h VC.firstRound = true).
+  { apply rr_defined_in_range; try (unfold VC.firstRound; lia). rewrite Hcomm.
+    exact (committee_not_empty _ _ Hleader). }
+  set (D := decided_signers qc). set (dsig := fun _ : N => D).
+  destruct (singles (all_broadcasts qc h ld) VC.firstRound ld (value_name ld) 0 false 0 0 dsig) as [S1 S2].
+  { intros m Hm. unfold all_broadcasts in Hm. apply in_flat_map in Hm. destruct Hm as (i & Hi & Hm).
+    exact (round_broadcasts_are_honest_items qc sh h ld fdlen Hcomm Hz dsig i m Hi Hm). }
+  assert (Hlen : (1 < length D)%nat).
+  { unfold D. rewrite (decided_signers_length qc sh Hquo Hq2 Hqn). lia. }
+  assert (Hitd : item_of (decided_msg qc h ld) = (HR.tDecided, hd 0 D)).
+  { unfold item_of, decided_msg. cbn [c_signers]. fold D.
+    destruct (Nat.ltb_spec 1 (length D)); [reflexivity|lia]. }
+  assert (Hsingle : forall m, In m (all_broadcasts qc h ld) -> HR.is_dec (fst (item_of m)) = false).
+  { intros m Hm. unfold all_broadcasts in Hm. apply in_flat_map in Hm. destruct Hm as (i & Hi & Hm).
+    destruct (round_broadcasts_are_honest_items qc sh h ld fdlen Hcomm Hz dsig i m Hi Hm) as (t & s & Eg & _ & Ed).
+    rewrite (item_of_gate _ _ _ _ _ _ _ _ _ _ _ _ Ed Eg). exact Ed. }
+  apply (bundle_is_accepted vc sh vid role fdlen p2p rawlen dlen pkprefix W Hshare Hliq Hmeta Hatt Hd0 Hd1 Hr0 Hr1
+           Hrole Hvalid Hfd (all_broadcasts_and_decided qc h ld) h VC.firstRound ld (value_name ld) 0 false 0 0 dsig).
+  - intros m Hm. unfold all_broadcasts_and_decided in Hm. apply in_app_or in Hm. destruct Hm as [Hm|[<-|[]]].
+    + exact (S1 m Hm).
+    + rewrite Hitd. cbn [fst snd].
+      exact (decided_msg_is_an_honest_item qc sh Hcomm Hquo Hnd Hz Hq2 Hqn h ld fdlen (hd 0 D)).
+  - intros m1 m2 H1 H2 E1 E2. unfold all_broadcasts_and_decided in H1, H2.
+    apply in_app_or in H1. apply in_app_or in H2.
+    destruct H1 as [H1|[<-|[]]]; [rewrite (Hsingle m1 H1) in E1; discriminate|].
+    destruct H2 as [H2|[<-|[]]]; [rewrite (Hsingle m2 H2) in E2; discriminate|]. reflexivity.
+  - exact (max_decided_pos _ _ Hleader).
+  - intros m1 m2 H1 H2 E. unfold all_broadcasts_and_decided in H1, H2.
+    apply in_app_or in H1. apply in_app_or in H2.
+    destruct H1 as [H1|[<-|[]]]; destruct H2 as [H2|[<-|[]]].
+    + exact (item_of_inj qc h ld m1 m2 H1 H2 E).
+    + pose proof (Hsingle m1 H1) as A. rewrite E, Hitd in A. discriminate.
+    + pose proof (Hsingle m2 H2) as A. rewrite <- E, Hitd in A. discriminate.
+    + reflexivity.
+  - exact Hleader.
+  - exact Hrr.
+  - unfold VC.firstRound. lia.
+  - unfold VC.firstRound. lia.
 Qed.
 
 End Rounds.
